@@ -106,7 +106,15 @@ def run(rep, tier="quick", replay=None, evidence_dir=None, collect_only=False):
     pl = get(prog, rep, "C20.R1", P + "parse_list")
     if pl is not None:
         dr = calls_named(pl, "std::vec::Vec::<T, A>::drain", "std::vec::Vec::<T, A>::iter", "std::iter::IntoIterator::into_iter")
-        src = [(bi, t) for bi, t in dr if "self.input_order" in pl.opdesc(t["args"][0])]
+        def from_input_order(op, depth=0):
+            # `self.input_order` itself, or a local it was moved / taken / cloned into
+            if "self.input_order" in pl.opdesc(op):
+                return True
+            cr = pl.call_result_of(op)
+            if cr and depth < 3 and cr[1]["args"] and callee_names(cr[1]["func"])[0] in ("std::mem::take", "std::mem::replace", "std::clone::Clone::clone", "std::ops::DerefMut::deref_mut", "std::ops::Deref::deref"):
+                return from_input_order(cr[1]["args"][0], depth + 1)
+            return False
+        src = [(bi, t) for bi, t in dr if from_input_order(t["args"][0])]
         rm = [(bi, t) for bi, t in calls_named(pl, "std::collections::HashMap::<K, V, S, A>::remove", "std::collections::HashMap::<K, V, S, A>::get") if pl.opdesc(t["args"][0]) == "self.parsed_schemas"]
         pu = calls_named(pl, "std::vec::Vec::<T, A>::push")
         ok = len(src) == 1 and len(rm) == 1 and len(pu) == 1
